@@ -41,7 +41,7 @@ pub static PROP: Prop = Prop {
     ],
     profiles: Profiles::Both,
     cases: |t| t.pick(40_000, 600_000),
-    budget_s: |t| t.pick(30, 400),
+    budget_s: |t| t.pick(60, 600),
     run,
     min_nontrivial: 60,
     required_counters: &["twoway_offset_judged", "twoway_delay_judged", "oneway_judged", "e2e_judged", "era_crossing_judged"],
